@@ -14,6 +14,7 @@
 (*   single_assignment  a variable (or a parameter) is assigned twice      *)
 (*   def_before_use     a variable is used before / without its definition *)
 (*   distinct_share     a variable stands where a different node is needed *)
+(*                      (the failure names the variable)                   *)
 (*   operand_order      operands appear in a different order               *)
 (*   operator           no node is realised by this operator here          *)
 (*   constant_value / constant_type   a constant expression denotes no     *)
@@ -30,10 +31,14 @@
 (*   exec_ieee          some input, graph over IEEE-exact kinds: executed  *)
 (*                      result # FAPrinterEval's evaluation (the spec's)   *)
 (* Leniencies: NaN = NaN; a sample whose direct evaluation raises (Python) *)
-(* is not judged; `p = T(p)` with T the declared type of parameter p is an *)
-(* argument cast, not an assignment; constants of equal value and type are *)
-(* one sub-expression; kinds in WildKinds are matched against the          *)
-(* package's own template.                                                 *)
+(* or has no reference ("skip") is not judged; `p = T(p)` with T the       *)
+(* declared type of parameter p is an argument cast, not an assignment;    *)
+(* constants of equal value and type are one sub-expression; kinds in      *)
+(* WildKinds are matched against the package's own template; see also the  *)
+(* header of FAPrinter.tla.  exec_ieee is judged on the samples flagged    *)
+(* `ieee` when FAPrinterEval can evaluate the whole graph (IEEE-exact      *)
+(* kinds, uniform precision); "oracle_drift" (harness interpreter # spec   *)
+(* evaluation) is a NOTE, reported as model drift, never a violation.      *)
 (***************************************************************************)
 EXTENDS FAPrinterEval, TraceKit
 VARIABLE l
